@@ -231,6 +231,55 @@ def argument_representation(ctx):
         raise HarnessError("argument_representation: no RUN argument found")
 
 
+FUNCTION_PROCEDURES = {"ecb_int", "ecb_val", "ecb_str", "ecb_hex", "ecb_instr", "ecb_string", "ecb_button", "ecb_joystk", "ecb_point", "ecb_read_filter"}
+
+
+def inputs_not_written(ctx):
+    """BASIC09 passes variables by reference: a runtime procedure that assigns one of its operand parameters changes the
+    program's variable (`SET(X,Y,C)` must leave C alone).  In every procedure the tool calls from a program, the only
+    parameters written are records (the display / music state) and, in the procedures that stand for a FUNCTION, the last
+    parameter (its result)."""
+    from vf.tv import b09front
+
+    lib = library()
+
+    def walk(stmts, acc):
+        for st in stmts:
+            if not isinstance(st, tuple):
+                continue
+            if st[0] == "assign" and st[1][0] in ("var", "idx"):
+                acc.add(st[1][1].upper().split(".")[0])
+            if st[0] == "for":
+                acc.add(str(st[1]).upper())
+            for x in st[1:]:
+                if isinstance(x, list):
+                    walk(x, acc)
+                elif isinstance(x, tuple) and x and isinstance(x[0], tuple):
+                    walk(list(x), acc)
+
+    n = 0
+    for name, P in sorted(lib.items()):
+        if name.startswith("_"):
+            continue  # helpers called by the library only: their conventions are the library's own business
+        try:
+            stmts = b09front.parse_program("\n".join(P.lines))
+        except Exception as e:  # noqa: BLE001
+            ctx.harness_gap(f"library procedure {name} cannot be read: {e}")
+            continue
+        acc = set()
+        walk(stmts, acc)
+        scalars = [p_ for p_ in P.params if p_[2].lower() in ("real", "integer", "byte", "string", "boolean")]
+        for i, prm in enumerate(scalars):
+            n += 1
+            ctx.stats["obligations"] += 1
+            is_result = name in FUNCTION_PROCEDURES and i == len(scalars) - 1
+            if prm[0].upper() in acc and not is_result:
+                ctx.violation(f"input-parameter-written:{name}.{prm[0].lower()}", f"procedure {name} assigns its parameter {prm[0]}; the tool passes the program's variable there by reference, so the statement changes it", {"source": "10 SET ( X , Y , C )", "procedure": name})
+            else:
+                ctx.stats["identity"] += 1
+    ctx.bounds["operand_parameters_checked"] = n
+
+
 def run(tier):
     ctx = Ctx("C04", tier, "translation_validation", technique="translation validation with SMT: RUN arguments bound to the real ecb.b09 param lists and compared per parameter name with a reference map, operands symbolic; BasicPoke on a symbolic address")
     smt.reset_stats()
@@ -258,7 +307,13 @@ def run(tier):
         ctx.sample({"source": r["job"][2], "emitted": (r.get("emitted") or "").strip()[:160], "status": r["status"]})
     poke_threshold(ctx)
     hbuff_prologue(ctx)
+    # string operands of device statements that travel through a temporary keep their length under -s 80
+    from vf.props import c03 as _c03
+
+    _c03.capacity(ctx, [("devstr:" + st.split(" ")[1], st) for st in ('10 PLAY STRING$ ( 40 , "C" )', '10 HPRINT ( 0 , 0 ) , STRING$ ( 40 , "-" )', '10 HDRAW "U5" + STR$ ( N )', '10 PRINT @ 5 , HEX$ ( N ) + STRING$ ( 9 , "." )',
+                                                                    '10 PLAY A$ + STR$ ( N )', "10 HPRINT ( 1 , 2 ) , INKEY$ + A$", "10 HDRAW LEFT$ ( A$ , 3 ) + HEX$ ( N )")])
     argument_representation(ctx)
+    inputs_not_written(ctx)
     # operands that are record fields read by name (the default colour display.hfore, the sound octave play.octo) have the
     # value the runtime stored only if the program's record declarations agree field for field with the library's
     from vf.core import ContractCtx
